@@ -646,6 +646,58 @@ func c16Views(c *Ctx, sx *symx.Ctx) {
 			r.Check(guarded, "O-5", key, c.P.Pos(call.Pos()), "appends Entries[i].Query only when not yet seen", "a query is appended without the `seen` test: recent queries are no longer distinct")
 		})
 		r.Floor("O-5", "appends in GetRecentQueries", nApp, 1)
+		// the walk ends only when the log is exhausted (i < 0) or `limit`
+		// distinct queries were collected
+		inLoop := func(b *ssa.BasicBlock) bool {
+			return b == idx.Block() || (ssau.Reachable(idx.Block(), b, nil) && ssau.Reachable(b, idx.Block(), nil))
+		}
+		nExit := 0
+		for _, b := range fn.Blocks {
+			if !inLoop(b) {
+				continue
+			}
+			for k, sc := range b.Succs {
+				if inLoop(sc) {
+					continue
+				}
+				nExit++
+				key := fmt.Sprintf("%s#walk-exit-%d", fk, nExit)
+				iff, ok := b.Instrs[len(b.Instrs)-1].(*ssa.If)
+				if !ok {
+					r.Bad("O-5", key, c.P.Pos(b.Instrs[len(b.Instrs)-1].Pos()), "the walk is left unconditionally")
+					continue
+				}
+				op, x, y, okc := ssau.CondOf(iff.Cond)
+				good := false
+				if okc {
+					if k == 0 {
+						op = ssau.Negate(op) // condition under which the loop continues, normalised to the false edge
+					}
+					// now: loop exits when (x op y) is FALSE
+					// (a) i >= 0 / i > -1 / 0 <= i
+					if x == ssa.Value(idx) {
+						if cst, isC := ssau.ConstInt(y); isC && ((op == token.GEQ && cst == 0) || (op == token.GTR && cst == -1)) {
+							good = true
+						}
+					} else if y == ssa.Value(idx) {
+						if cst, isC := ssau.ConstInt(x); isC && ((op == token.LEQ && cst == 0) || (op == token.LSS && cst == -1)) {
+							good = true
+						}
+					}
+					// (b) len(queries) < limit
+					if call, isCall := x.(*ssa.Call); isCall && ssau.CallName(call) == "builtin.len" && op == token.LSS {
+						if _, isStrs := call.Common().Args[0].Type().Underlying().(*types.Slice); isStrs {
+							lim := f.Plain(y)
+							if y == ssa.Value(fn.Params[1]) || strings.Contains(lim, "phi:") && strings.Contains(lim, fn.Params[1].Name()) {
+								good = true
+							}
+						}
+					}
+				}
+				r.Check(good, "O-5", key, c.P.Pos(iff.Cond.Pos()), "the walk stops only when the log is exhausted or `limit` distinct queries were collected", "the walk over Entries can stop for another reason ("+f.Plain(iff.Cond)+"): fewer than `limit` distinct recent queries are returned although older entries hold more")
+			}
+		}
+		r.Floor("O-5", "exits of the recent-queries walk", nExit, 1)
 	}
 }
 
